@@ -75,6 +75,7 @@ pub struct CoreSpec {
     pub reverse_proxy: Option<(SocketAddr, String)>,
     pub speedtest: bool,
     pub icmp: bool,
+    pub icmp_timeout: Duration,
     pub metrics: Option<SocketAddr>,
     pub establishment_timeout: Duration,
     pub tcp_timeout: Duration,
@@ -103,6 +104,7 @@ impl Default for CoreSpec {
             reverse_proxy: None,
             speedtest: false,
             icmp: false,
+            icmp_timeout: Duration::from_secs(3),
             metrics: None,
             establishment_timeout: Duration::from_secs(30),
             tcp_timeout: Duration::from_secs(600),
@@ -170,7 +172,7 @@ impl CoreSpec {
             b = b.icmp(
                 IcmpSettings::builder()
                     .interface_name("lo")
-                    .request_timeout(Duration::from_secs(3))
+                    .request_timeout(self.icmp_timeout)
                     .build()
                     .map_err(|e| format!("{:?}", e))?,
             );
